@@ -661,6 +661,95 @@ func routeShapeGo(lines []string, target []string) string {
 	return ""
 }
 
+// managedDiff: where the managed part of `got` differs from the target's.
+type mdiff struct {
+	acls   []string // "intf:dir": bound on both sides, block-canonical contents differ
+	names  []string // the access lists of `got` bound there
+	other  []string // "intf:dir": bound on one side only
+	routes bool     // the route lines of the VRFs with target routes differ
+}
+
+func (d mdiff) kind() string {
+	switch {
+	case len(d.acls) > 0 && len(d.other) == 0 && !d.routes:
+		return "acl_only"
+	case len(d.acls) == 0 && len(d.other) == 0 && d.routes:
+		return "routes_only"
+	case len(d.acls) == 0 && len(d.other) == 0:
+		return "none"
+	}
+	return "mixed"
+}
+
+func managedDiff(got, want *iosDev, intfs []string, vrfs map[string]bool, withRoutes bool) mdiff {
+	var d mdiff
+	for _, n := range intfs {
+		g, w := got.intf(n), want.intf(n)
+		if g == nil || w == nil {
+			d.other = append(d.other, n+":missing")
+			continue
+		}
+		for _, dir := range []string{"in", "out"} {
+			gn, wn := g.In, w.In
+			if dir == "out" {
+				gn, wn = g.Out, w.Out
+			}
+			switch {
+			case (gn != "") != (wn != ""):
+				d.other = append(d.other, n+":"+dir)
+			case gn != "" && blockCanon(got.bodies(gn)) != blockCanon(want.bodies(wn)):
+				d.acls = append(d.acls, n+":"+dir)
+				d.names = append(d.names, gn)
+			}
+		}
+	}
+	if withRoutes {
+		managedRoutes := func(x *iosDev) string {
+			var rs []string
+			for _, r := range x.Routes {
+				if vrfs[routeVRF(r)] {
+					rs = append(rs, r)
+				}
+			}
+			sort.Strings(rs)
+			return strings.Join(rs, "|")
+		}
+		d.routes = managedRoutes(got) != managedRoutes(want)
+	}
+	return d
+}
+
+// aclsTouched: the access lists a script edits, and whether it does nothing else.
+func aclsTouched(out string) (names []string, onlyACL bool) {
+	onlyACL = true
+	seen := map[string]bool{}
+	inACL := false
+	for _, l := range splitJoined(out) {
+		f := strings.Fields(l)
+		switch {
+		case strings.HasPrefix(l, "ip access-list resequence ") && len(f) > 3:
+			inACL = false
+			if !seen[f[3]] {
+				seen[f[3]] = true
+				names = append(names, f[3])
+			}
+		case strings.HasPrefix(l, "ip access-list extended ") && len(f) > 3:
+			inACL = true
+			if !seen[f[3]] {
+				seen[f[3]] = true
+				names = append(names, f[3])
+			}
+		case inACL && !strings.HasPrefix(l, "interface ") && !strings.HasPrefix(l, "ip route ") && !strings.HasPrefix(l, "no ip route ") &&
+			!strings.HasPrefix(l, "no ip access-list ") && l != "exit":
+			// an entry line of the access list
+		default:
+			onlyACL = false
+			inACL = false
+		}
+	}
+	return
+}
+
 func genCase(r *RNG) cfgCase {
 	b := genTarget(r)
 	a, note := genDevice(r, b)
@@ -983,11 +1072,44 @@ func run(ctx *Ctx) *Result {
 			}
 		}
 		frame0 := unmanagedView(c.dev, managed, rvrfs, uACL)
-		// F-C02r: the line planner suppressed a move next to (or of) a remark line (ghost flag of the model, which agrees with drc here)
-		remarkHit := func(f map[string]string) bool { return strings.Contains(f["hits"], "+remark-suppression") }
-		remarkSuppr := remarkHit(f)
+		// F-C02r, per object (docs/ORACLE_AUDIT.md item 18): `suppracls` = the device ACLs in which the line planner of THIS run
+		// suppressed a move next to (or of) a remark line (ghost flag of the model per edited ACL); `notconv`/`routesconv` = what the
+		// model of the unchanged engine predicts for THIS input (its own script on the Lean device). A failure carries
+		//   suppressed_move_at_remark: the reported difference is confined to ACLs of `suppracls` (no binding, no route differs)
+		//   model_predicts:            the difference is exactly the one the model predicts
+		// and only then matches the known entry; everything else is a violation.
 		sig := func(pred string) map[string]any {
 			return map[string]any{"pred": pred, "backend": "ios", "level": "config"}
+		}
+		target := c.spoc
+		fc02r := func(s map[string]any, got *iosDev, fs ...map[string]string) {
+			d := managedDiff(got, target, intfs, rvrfs, withRoutes)
+			suppr := map[string]bool{}
+			for _, f := range fs {
+				for _, n := range strings.Split(f["suppracls"], ",") {
+					if n != "" {
+						suppr[n] = true
+					}
+				}
+			}
+			confined := d.kind() == "acl_only"
+			for _, n := range d.names {
+				if !suppr[n] {
+					confined = false
+				}
+			}
+			last := fs[len(fs)-1]
+			slots := append(append([]string{}, d.acls...), d.other...)
+			sort.Strings(slots)
+			pred := strings.Split(last["notconv"], ",")
+			if last["notconv"] == "" {
+				pred = nil
+			}
+			sort.Strings(pred)
+			s["diff"] = d.kind()
+			s["suppressed_move_at_remark"] = confined
+			s["model_predicts"] = last["notconv"] != "?" && strings.Join(slots, ",") == strings.Join(pred, ",") && (last["routesconv"] == "1") == !d.routes
+			res.Count(fmt.Sprintf("F-C02r-classifier:%v:diff=%s,confined=%v,model_predicts=%v", s["pred"], d.kind(), confined, s["model_predicts"]))
 		}
 		ex := &executor{d: c.dev.clone()}
 		var states []*iosDev
@@ -996,11 +1118,12 @@ func run(ctx *Ctx) *Result {
 				if f["wf"] == "1" {
 					res.Disagree("F2: wfB holds but dev.go rejects a command of the real script (contradicts ios_F2_converges_partial)", c, cmd, err.Error())
 				}
-				if prop == "C08" || prop == "C02" || prop == "C10" {
-					s := sig("command_rejected_by_strict_device")
-					s["reason"] = rejectClass(err.Error())
-					res.Fail(s, fmt.Sprintf("command %d %q: %v", i, cmd, err), c)
-				}
+				// under EVERY property: a refused command ends the judgement of this case, so it is a failure of its own
+				// (docs/ORACLE_AUDIT.md item 25: no silent return)
+				res.Count("real-script-command-refused-by-strict-device:" + rejectClass(err.Error()))
+				s := sig("command_rejected_by_strict_device")
+				s["reason"] = rejectClass(err.Error())
+				res.Fail(s, fmt.Sprintf("command %d %q: %v", i, cmd, err), c)
 				return
 			}
 			states = append(states, ex.d.clone())
@@ -1020,7 +1143,7 @@ func run(ctx *Ctx) *Result {
 			}
 			if len(cmds) == 0 && c.dev.managedView(intfs, rvrfs, withRoutes) != wantView {
 				s := sig("unchanged_reported_for_different_acl")
-				s["suppressed_move_at_remark"] = remarkSuppr
+				fc02r(s, c.dev, f)
 				res.Fail(s, "empty script although the device is not equivalent", c)
 				return
 			}
@@ -1029,7 +1152,7 @@ func run(ctx *Ctx) *Result {
 					res.Disagree("F2: wfB holds but the executed result is not equivalent to the target (contradicts ios_F2_converges_partial)", c, got, wantView)
 				}
 				s := sig("acl_not_converged")
-				s["suppressed_move_at_remark"] = remarkSuppr
+				fc02r(s, final, f)
 				res.Fail(s, "after executing the script the managed part differs from the target:\n"+got+"-- want\n"+wantView, c)
 				return
 			}
@@ -1045,8 +1168,21 @@ func run(ctx *Ctx) *Result {
 			if v2 == "refused" || v2 == "panic" {
 				res.Fail(sig("second_compare_failed"), "drc refuses the executed result", c)
 			} else if strings.TrimSpace(out2) != "" {
+				// the executed result is equivalent (remark lines aside), yet drc wants to change it again: known only if the second
+				// script touches nothing but ACLs in which a move was suppressed at a remark line (first or second run) and is the
+				// script the model predicts (v2 == "ok": model script == drc script)
 				s := sig("second_compare_not_empty")
-				s["suppressed_move_at_remark"] = remarkSuppr || remarkHit(f2)
+				touched, onlyACL := aclsTouched(out2)
+				confined := onlyACL && len(touched) > 0
+				for _, n := range touched {
+					if !strings.Contains(","+f["suppracls"]+","+f2["suppracls"]+",", ","+n+",") {
+						confined = false
+					}
+				}
+				s["diff"] = map[bool]string{true: "acl_only", false: "other"}[onlyACL]
+				s["suppressed_move_at_remark"] = confined
+				s["model_predicts"] = v2 == "ok"
+				res.Count(fmt.Sprintf("F-C02r-classifier:second_compare_not_empty:acl_only=%v,confined=%v,model_predicts=%v", onlyACL, confined, v2 == "ok"))
 				res.Fail(s, "second compare reports changes:\n"+out2, c)
 			}
 			if f["wf"] == "1" {
@@ -1153,8 +1289,9 @@ func run(ctx *Ctx) *Result {
 					if resumeTheorem {
 						res.Disagree("F2: wfB at start and at the cut, but the second run does not reach the target (contradicts ios_F2_resume_partial)", c, got, wantView)
 					}
+					// per cut: the flags of THIS resumed run (f2), nothing carried over from other cuts
 					s := sig("resume_not_converged")
-					s["suppressed_move_at_remark"] = remarkSuppr || remarkHit(f2)
+					fc02r(s, ex2.d, f2)
 					res.Fail(s, fmt.Sprintf("cut after %d commands: second run ends in\n%s-- want\n%s", k+1, got, wantView), c)
 				}
 			}
